@@ -268,6 +268,51 @@ def run(ctx):
     check_message_composition(ctx, "R10")
     check_no_swallowing_constructs(ctx, "R1")
     check_lineiterator_lifo(ctx, "R6")
+    ctx.rule("R11", "only LineIterator reads the file behind it", "lines read from the raw file handle are not counted: every later LoadError names a line that was passed long ago")
+    check_file_handle_owner(ctx, "R11")
+
+
+#: whole-document formats that hand the raw file to a parser of their own before any line is consumed
+FH_HANDOVER_OK = {
+    "json.load": "JSON is not line-oriented: the document is parsed in one piece, a JSON error has no line of this iterator to name",
+}
+
+
+def check_file_handle_owner(ctx, rid):
+    """Who-may-touch rule: the `fh` attribute (the open file) of a LineIterator is used by the methods of LineIterator
+    only.  A parser that reads from it directly consumes lines behind the iterator's back: `lineno` stops moving and
+    the line named in any later error is wrong."""
+    prog = ctx.prog
+    licls = prog.cls("iodata.utils.LineIterator")
+    own = [f for f in prog.funcs.values() if f.cls is licls]
+    n_own = sum(1 for f in own for x in f.own_nodes() if isinstance(x, ast.Attribute) and x.attr == "fh")
+    if n_own < 3:
+        raise AnalysisError("LineIterator no longer keeps its file in `fh`: the owner rule has lost its anchor")
+    seen_ok = set()
+    for f in prog.funcs.values():
+        if f.cls is licls or not f.module.name.startswith("iodata.") or ".test" in f.module.name:
+            continue
+        pm = None
+        for x in f.own_nodes():
+            if not (isinstance(x, ast.Attribute) and x.attr == "fh"):
+                continue
+            # the base must be a line iterator: a parameter / local named or annotated as such
+            base = x.value
+            is_lit = isinstance(base, ast.Name) and (base.id == "lit" or "LineIterator" in (f.annotations.get(base.id, "") if hasattr(f, "annotations") else ""))
+            if not is_lit:
+                continue
+            pm = pm or prog.parents(f)
+            call = pm.get(id(x))
+            handed = None
+            if isinstance(call, ast.Call) and any(a is x for a in call.args):
+                r = prog.resolve_expr(f, f.module, call.func)
+                handed = r[1] if r and r[0] in ("ext", "external") else (src_of(call.func) if r is None else None)
+            if handed in FH_HANDOVER_OK:
+                seen_ok.add(handed)
+                ctx.ok(rid, f"{f.qualname}: the file is handed to {handed} ({FH_HANDOVER_OK[handed]})", f"{f.module.relpath}:{x.lineno}")
+                continue
+            ctx.violate(rid, f"{f.qualname} uses the raw file handle `{src_of(x)}` of the line iterator: lines read this way are not counted, a later LoadError names the wrong line (and pushed-back lines are skipped)", f, x)
+    ctx.ok(rid, f"LineIterator: {n_own} uses of its own file handle; no parser reads it directly (besides {len(seen_ok)} whole-document hand-over)", f"{licls.module.relpath}:{licls.node.lineno}")
 
 
 def _outcomes(stmts):
